@@ -81,6 +81,11 @@ class FieldArrayModel(FieldCompositeModel):
             f.name = self.name + "[" + str(i) + "]"
         
     def pre_randomize(self, visited):
+        # Drop solver nodes cached by an earlier call that 
+        # failed or was aborted before post_randomize
+        self.sum_expr_btor = None
+        self.product_expr_btor = None
+        
         # Set the size field for arrays that don't
         # have a random size
         if self.is_rand_sz:
